@@ -83,7 +83,24 @@ func NewValue(typ *meta.Type, v interface{}) (val.Value, error) {
 	case val.FmtUnionList:
 		return toUnionList(typ, v)
 	case val.FmtLeafRef, val.FmtLeafRefList:
-		return NewValue(typ.Resolve(), v)
+		target := typ.Resolve()
+		if typ.Format().IsList() && !target.Format().IsList() {
+			// a leaf-list of references to a leaf: a list of values of the leaf's type
+			switch target.Format() {
+			case val.FmtEnum:
+				return toEnumList(target.Enum(), v)
+			case val.FmtIdentityRef:
+				return toIdentRefList(target.Base(), v)
+			case val.FmtBits:
+				return toBitsList(target.Bits(), v)
+			case val.FmtUnion:
+				return toUnionList(target, v)
+			case val.FmtLeafRef:
+				return nil, fmt.Errorf("leafref to a leafref is not supported")
+			}
+			return val.Conv(target.Format().List(), v)
+		}
+		return NewValue(target, v)
 	case val.FmtBitsList:
 		return toBitsList(typ.Bits(), v)
 	case val.FmtBits:
